@@ -22,7 +22,7 @@ func (v *Vue) evalVText(ctx VueContext, n *htmlnode.Node) error {
 	if !ok {
 		// v-text may be a function call like "file(src)"
 		var err error
-		if strings.Contains(expr, "|") || helpers.IsFunctionCall(expr) || helpers.IsComplexExpr(expr) {
+		if strings.Contains(expr, "|") || helpers.IsFunctionCall(expr) || helpers.IsComplexExpr(expr) || !helpers.IsVariablePath(expr) {
 			pipe := parsePipeExpr(expr)
 			val, err = v.evalPipe(ctx, pipe)
 			if err != nil {
